@@ -1141,10 +1141,10 @@ func (c *Ctx) ruleErrBeforeDone(rr *RuleRep) {
 	}
 	fld := c.closedField()
 	var se, cl ssa.Instruction
+	for _, rec := range c.errRecords(reader) {
+		se = rec.At
+	}
 	eachInstr(reader, func(in ssa.Instruction) {
-		if c.isCallTo(in, setErr) {
-			se = in
-		}
 		if k, ok := in.(*ssa.Call); ok {
 			if b, ok := k.Call.Value.(*ssa.Builtin); ok && b.Name() == "close" {
 				if _, isF := isLoadOfField(c.Resolve(k.Call.Args[0]), fld); isF {
